@@ -309,13 +309,23 @@ func c14NewSim(n int, pre int64, conns []c14Conn) *c14Sim {
 // have built pickers before). The records the picker holds right after Build are
 // snapshotted: they are what "this picker's connection" means from then on.
 func c14NewSimOn(b *p2cPickerBuilder, scs []*c14SubConn, conns []c14Conn) *c14Sim {
-	n := len(scs)
-	ready := make(map[balancer.SubConn]base.SubConnInfo, n)
+	ready := make(map[balancer.SubConn]base.SubConnInfo, len(scs))
 	for _, sc := range scs {
 		ready[sc] = base.SubConnInfo{Address: resolver.Address{Addr: fmt.Sprint(sc.id)}}
 	}
+	return c14Adopt(b.Build(base.PickerBuildInfo{ReadySCs: ready}), scs, conns)
+}
+
+// c14Adopt puts a picker under judgement that somebody (the harness through Build, or
+// gRPC's base balancer through the registered builder) built for the ready set scs.
+func c14Adopt(picker balancer.Picker, scs []*c14SubConn, conns []c14Conn) *c14Sim {
+	n := len(scs)
+	ready := make(map[balancer.SubConn]bool, n)
+	for _, sc := range scs {
+		ready[sc] = true
+	}
 	s := &c14Sim{n: n, conns: conns, classes: map[string]bool{}, pos: map[balancer.SubConn]int{}}
-	s.picker = b.Build(base.PickerBuildInfo{ReadySCs: ready})
+	s.picker = picker
 	s.base = time.Now()
 	p, ok := s.picker.(*p2cPicker)
 	if !ok {
